@@ -234,8 +234,9 @@ func checkPartial(x *Exec, prop string, m *u.MapPollard, md *partModel, lastOp O
 	if m.TotalRows != L.R {
 		LT = ref.LayoutOf(md.s, m.TotalRows)
 	}
-	if m.GetNumLeaves() != md.s.Total() || !eqH(m.GetRoots(), L.Roots) {
-		x.Note("partial: roots differ from reference (C01's concern)")
+	if n, roots := m.GetNumLeaves(), m.GetRoots(); n != md.s.Total() || !eqH(roots, L.Roots) {
+		// C01's clause; collected when the family runs under the C01 collector
+		x.Report("C01", "roots or leaf count differ from reference on MapPollard(partial) after verify/ingest/prune/undo interleavings", fmt.Sprintf("TR=%d after %s: want N=%d %s got N=%d %s", m.TotalRows, lastOp.String(), md.s.Total(), shortHs(L.Roots), n, shortHs(roots)))
 		return evals
 	}
 	obs := map[int]bool{}
